@@ -361,8 +361,20 @@ def c08_shapes(tier):
     return shapes
 
 
+def c18_shapes(tier):
+    shapes = []
+    for nargs in (1, 2, 3):
+        for display in range(12):
+            if tier == 'quick' and nargs == 3 and display not in (0, 3, 4, 8):
+                continue
+            shapes.append(('hx_usage', [nargs, display], 'c18/usage/args%d/hidden%d/deprecated%d/%s' % (nargs, display & 1, (display >> 1) & 1, ('all', 'short', 'long')[display >> 2])))
+    for k in range(6):
+        shapes.append(('hx_help_arg', [k, 0], 'c18/help-arg/%d' % k))
+    return shapes
+
+
 def build_unit(name, shapes, tier, bounds):
-    return E2Unit(name, os.path.join(HERE, 'w_pa.cpp'), lib_srcs=lib_srcs(), shapes=shapes, timeout=300 if tier == 'quick' else 1200,
+    return E2Unit(name, os.path.join(HERE, 'w_usage.cpp' if name.endswith('C18') else 'w_pa.cpp'), lib_srcs=lib_srcs(), shapes=shapes, timeout=300 if tier == 'quick' else 1200,
                   max_steps=4000000, conc_cap=300, bounds=bounds, validate_vectors=10)
 
 
@@ -377,7 +389,7 @@ ASSUME = ['IR of the unmodified library sources (clang++-14 -O1 -D_GLIBCXX_ASSER
 
 
 def main(prop, tier, only=None):
-    gens = dict(C01=c01_shapes, C02=c02_shapes, C03=c03_shapes, C04=c04_shapes, C05=c05_shapes, C06=c06_shapes, C07=c07_shapes, C08=c08_shapes)
+    gens = dict(C01=c01_shapes, C02=c02_shapes, C03=c03_shapes, C04=c04_shapes, C05=c05_shapes, C06=c06_shapes, C07=c07_shapes, C08=c08_shapes, C18=c18_shapes)
     shapes = gens[prop](tier)
     if only:
         shapes = [s for s in shapes if re.search(only, s[2])]
